@@ -979,3 +979,83 @@ Definition ex_tree : etree :=
                (ENot (Str "!") (ECmp (Str "eq") (EFunc (Str "length") [LBind (Str "n")]) (int_ "3" 3))))
             (EGroup (ECmp (Str "~") (bnd "c") (ELeaf (LVerb (Str "/x/")))))).
 
+
+(* ================================================================ I. numerals *)
+Section Numerals.
+Open Scope N_scope.
+
+Lemma nat_of_digits_digit a d s : d < 10 -> nat_of_digits a ((48 + d) :: s) = nat_of_digits (10 * a + d) s.
+Proof.
+  intros H. cbn [nat_of_digits]. unfold is_digit.
+  replace ((48 <=? 48 + d) && (48 + d <=? 57)) with true.
+  - f_equal. lia.
+  - symmetry. apply andb_true_iff. split; apply N.leb_le; lia.
+Qed.
+
+Lemma digits_fuel_S f n acc :
+  digits_fuel (S f) n acc
+  = if n <? 10 then (48 + n mod 10) :: acc else digits_fuel f (n / 10) ((48 + n mod 10) :: acc).
+Proof. reflexivity. Qed.
+
+Lemma digits_fuel_value : forall f n acc,
+  n < 2 ^ N.of_nat f -> nat_of_digits 0 (digits_fuel (S f) n acc) = nat_of_digits n acc.
+Proof.
+  induction f as [|f IH]; intros n acc Hn.
+  - cbn in Hn. assert (n = 0) by lia. subst. reflexivity.
+  - rewrite digits_fuel_S. destruct (n <? 10) eqn:E.
+    + apply N.ltb_lt in E. rewrite nat_of_digits_digit by (apply N.mod_lt; lia).
+      rewrite N.mod_small by assumption. f_equal.
+    + apply N.ltb_ge in E. rewrite IH.
+      * rewrite nat_of_digits_digit by (apply N.mod_lt; lia). f_equal.
+        rewrite (N.div_mod n 10) at 3 by lia. reflexivity.
+      * rewrite Nat2N.inj_succ, N.pow_succ_r' in Hn.
+        apply N.div_lt_upper_bound; lia.
+Qed.
+
+Definition digit_head (s : str) : Prop := exists c rest, s = c :: rest /\ 48 <= c /\ c <= 57.
+
+Lemma digits_fuel_head_acc : forall f n d acc,
+  48 <= d -> d <= 57 -> digit_head (digits_fuel f n (d :: acc)).
+Proof.
+  induction f as [|f IH]; intros n d acc H1 H2.
+  - exists d, acc. auto.
+  - rewrite digits_fuel_S. assert (Hm : n mod 10 < 10) by (apply N.mod_lt; discriminate).
+    destruct (n <? 10).
+    + exists (48 + n mod 10), (d :: acc). repeat split; try reflexivity; set (m := n mod 10) in *; clearbody m; lia.
+    + set (m := n mod 10) in *; clearbody m. apply IH; lia.
+Qed.
+
+Lemma digits_of_N_head n : digit_head (digits_of_N n).
+Proof.
+  unfold digits_of_N. rewrite digits_fuel_S. assert (Hm : n mod 10 < 10) by (apply N.mod_lt; discriminate).
+  destruct (n <? 10).
+  - exists (48 + n mod 10), []. repeat split; try reflexivity; set (m := n mod 10) in *; clearbody m; lia.
+  - set (m := n mod 10) in *; clearbody m. apply digits_fuel_head_acc; lia.
+Qed.
+
+Lemma digits_of_N_value n : nat_of_digits 0 (digits_of_N n) = n.
+Proof.
+  unfold digits_of_N. rewrite digits_fuel_value; [reflexivity|].
+  rewrite N2Nat.id. apply N.size_gt.
+Qed.
+
+Lemma split_sign_digit s : digit_head s -> split_sign s = (false, s).
+Proof.
+  intros (c & rest & -> & H1 & H2). unfold split_sign.
+  destruct (N.eqb_spec c 45); [lia|]. destruct (N.eqb_spec c 43); [lia|]. reflexivity.
+Qed.
+
+(* int(str(z)) = z: the stored numeral denotes the value it was printed from *)
+Theorem int_roundtrip z : int_of_lit (py_int_repr z) = z.
+Proof.
+  destruct z as [|p|p]; [reflexivity| |].
+  - unfold int_of_lit, py_int_repr. rewrite split_sign_digit by apply digits_of_N_head.
+    rewrite digits_of_N_value. reflexivity.
+  - unfold int_of_lit, py_int_repr.
+    change (split_sign (Str "-" ++ digits_of_N (N.pos p))) with (true, digits_of_N (N.pos p)).
+    cbv beta iota. rewrite digits_of_N_value. reflexivity.
+Qed.
+
+Lemma canon_int_lit_ok sp z : leaf_lit_ok (canon_leaf (LInt sp z)) = true.
+Proof. cbn. rewrite int_roundtrip. apply Z.eqb_refl. Qed.
+End Numerals.
